@@ -17,7 +17,17 @@ import (
 )
 
 // blockCases: the prefixes P1 = [m1], P2 = [m1, m2], ... of the block as cases
+var blockSeq int
+
 func blockCases(w *Case, ms []*Case) []*Case {
+	// what happens to the StateDB between the messages: corpus blocks rotate (2 of 4 stay on one StateDB),
+	// generated blocks have drawn theirs already
+	if w.Between == "" {
+		w.Between = []string{"", "reload", "", "copy"}[blockSeq%4]
+		blockSeq++
+	} else if w.Between == "same" {
+		w.Between = ""
+	}
 	var out []*Case
 	for i, m := range ms {
 		m.RelNonce = true
@@ -229,6 +239,7 @@ func blockCorpus() []*Case {
 
 func genBlock(r *hlib.Rng) []*Case {
 	w, g := genWorld(r)
+	w.Between = []string{"same", "reload", "copy"}[hlib.NewRng(uint64(r.Intn(1<<30))).Pick(55, 30, 15)]
 	if !w.has(eoa(2)) || r.Chance(70) {
 		for i := range w.Accts {
 			if w.Accts[i].Addr == eoa(2) {
